@@ -143,6 +143,30 @@ def run(repo, rep):
                                   'the literal inside %s(...) is %s but a native %s prints as %s on the same path: the subclass instance '
                                   'would not be reconstructed from the literal of its underlying value'
                                   % (tname, D.show(t.args[0])[:120], base, D.show(tn)[:120]), nontrivial=True)
+    # elements that are instances of a subclass of a built-in type, in containers longer than every size constant the sequence printer
+    # compares against (and than a fixed small count): each is handed to the recursive print entry - a text computed from the element
+    # directly (its repr) bypasses the wrapper that its own printer adds
+    fseq = S.printer_for(repo, 'list')
+    counts, mined = S.scaled_counts(repo, fseq)
+    rep.note('sequence printer: size constants %s; element counts %s' % ({k: v[:1] for k, v in mined.items()} or 'none', counts))
+    for nel in counts:
+        for base in ('list', 'tuple', 'set'):
+            v = ValueV('value', S.type_scenario(base, True), S.typed_elements(nel, 'Sub_int'))
+            try:
+                res = S.run_printer(repo, itb, fseq, v, trailing_comment=NONE)
+            except Undecided as e:
+                n += 1
+                rep.undecided('C08.b', '%s[%s,n=%d,Sub_int]' % (fseq.name, base, nel), fseq.where, str(e))
+                continue
+            for pr, t, ph in res:
+                if pr.raised is not None or not isinstance(t, D.Seq):
+                    continue
+                lits = [(nm, D.show(i_)[:60]) for nm, how, i_ in S.element_view(t.items) if how == 'literal']
+                n += 1
+                rep.check(not lits, 'C08.b', '%s[%s,n=%d,int-subclass elements]{%s}:elements-dispatched' % (fseq.name, base, nel, _short(pr)), fseq.where,
+                          'every element handed to the recursive print entry',
+                          'in a %s of %d instances of an int subclass the element %s is written as %s: the element\'s own printer - and with it '
+                          'the call of its class around the literal - is bypassed' % (base, nel, lits[0][0] if lits else '', lits[0][1] if lits else ''), nontrivial=True)
     # children of containers are printed through the dispatching entry points (never a literal builder directly)
     fd = S.printer_for(repo, 'dict')
     for nk in (1, 2):
